@@ -1062,6 +1062,14 @@ func boundedCounterTest(ts *taintState, bo *ssa.BinOp, l *loopInfo) bool {
 		if ts.get(o) != nil && !isCounterPhi(o, l) {
 			continue
 		}
+		// `i <= n` with i as wide as n can be: at n all ones the counter wraps and the test never fails
+		if t != nil && (i == 0 && bo.Op == token.LEQ || i == 1 && bo.Op == token.GEQ) {
+			if cb := typeBits(o.Type()); cb > 0 && cb <= 32 && t.bits >= cb {
+				if bt, ok := o.Type().Underlying().(*types.Basic); ok && bt.Info()&types.IsUnsigned != 0 {
+					continue
+				}
+			}
+		}
 		return true
 	}
 	return false
